@@ -67,6 +67,10 @@ def gen_seq(rng):
                 ops.append(("switch", pts[j].tolist(), lo, ln, float(ic.criterion_value)))
         want = batch_ch(pts[:len(labels)], labels)
         got = float(ic.criterion_value)
+        if not np.isfinite(got):
+            fails.append({"signature": "iCVI_CH/nonfinite", "text": f"incremental CH is {got} (batch index {want})",
+                          "replay": {"points": [p.tolist() for p in pts[:len(labels)]], "ops": [list(o[:4]) for o in ops]}})
+            break
         if abs(got - want) > 1e-6 * (1 + abs(want)):
             resid = abs(ic.WGSS) < 1e-12
             fails.append({"signature": "iCVI_CH/wgss-rounding-residue" if resid else "iCVI_CH/value",
